@@ -42,10 +42,6 @@ func heavyTxn(n *kit.TNode, who, pick int, weight uint64, fee types.Currency) (t
 func TestC05Heavy(t *testing.T) {
 	d := kit.NewDirect(t, "C05", "heavy family: for k = 0..40 a pool holding one v2 transaction of weight MaxBlockWeight-k (and, in a second sweep, two transactions summing to MaxBlockWeight-k); plus pools holding more than one block weight in which the transaction that no longer fits has a small dependant behind it, a pool at nine of ten block weights and a rejected set whose valid members would have filled it (v1 and v2; nothing may be evicted), resubmission of an evicted transaction (must not be 'known'), a pool of six v1 and six v2 transactions of 0.9 block weights each with interleaved fees (whatever is evicted must pay no more per weight than anything kept; the pool is then mined down block by block inside the hardfork window, every block valid and accepted), and pools of 11 and 13 near-block-size transactions with distinct fees (beyond the ten-block pool limit). After each: the reported pool validates on the tip, the block MineBlock assembles is valid under core and accepted by AddBlocks, and so is the next one built from the remainder.")
 	defer d.Done()
-	type hcase struct {
-		Family string `json:"family"`
-		K      int    `json:"k"`
-	}
 	tc := kit.TreeCase{Net: kit.NetSpec{Maturity: 1, Allow: 1, ReqOff: 0, CutOff: 50}}
 	for i := 0; i < 3; i++ {
 		tc.Blocks = append(tc.Blocks, kit.BlockSpec{Dt: 1, Miner: i})
@@ -250,144 +246,7 @@ func TestC05Heavy(t *testing.T) {
 			return [][]types.V2Transaction{{a}, {p, c}}
 		})
 	}
-	// a heavy pool (nine of ten block weights) and a rejected set whose valid
-	// members would have filled it: a rejection changes nothing, so nothing may
-	// be evicted afterwards
-	for _, v2 := range []bool{false, true} {
-		v2 := v2
-		func() {
-			hc := hcase{"rejected-heavy-set-must-not-evict", map[bool]int{false: 1, true: 2}[v2]}
-			rtc := kit.TreeCase{Net: kit.NetSpec{Maturity: 1, Allow: 1, ReqOff: 300, CutOff: 50}}
-			for i := 0; i < 3; i++ {
-				rtc.Blocks = append(rtc.Blocks, kit.BlockSpec{Dt: 1, Miner: i})
-			}
-			tr := kit.BuildTree(rtc)
-			node, err := kit.NewNode(tr, "mem")
-			if err != nil {
-				t.Fatal(err)
-			}
-			defer node.Close()
-			for _, n := range tr.Nodes {
-				if err := node.Submit([]types.Block{n.Block}); err != nil {
-					t.Fatalf("INFRA: %v", err)
-				}
-			}
-			tip := tr.Nodes[len(tr.Nodes)-1]
-			st := tip.Ledger.State
-			cs := &kit.CaseStats{}
-			cs.NonTrivial()
-			cs.Class("heavy:" + hc.Family)
-			var own [4][]types.SiacoinElement
-			for _, e := range tip.Ledger.SCE {
-				if a := kit.ActorOf(e.SiacoinOutput.Address); a >= 0 && e.MaturityHeight <= tip.Height {
-					own[a] = append(own[a], e.Copy())
-				}
-			}
-			for a := range own {
-				for x := range own[a] {
-					for y := x + 1; y < len(own[a]); y++ {
-						if own[a][y].ID.String() < own[a][x].ID.String() {
-							own[a][x], own[a][y] = own[a][y], own[a][x]
-						}
-					}
-				}
-			}
-			next := [4]int{}
-			take := func(a int) (types.SiacoinElement, bool) {
-				if next[a] >= len(own[a]) {
-					return types.SiacoinElement{}, false
-				}
-				next[a]++
-				return own[a][next[a]-1], true
-			}
-			var ids []types.TransactionID
-			var first types.SiacoinElement
-			var cerr error
-			half := int(maxW / 2)
-			mk := func(e types.SiacoinElement, who int, fee types.Currency, pad int, tag int) (types.Transaction, types.V2Transaction) {
-				if v2 {
-					txn := types.V2Transaction{SiacoinInputs: []types.V2SiacoinInput{{Parent: e.Copy()}}, SiacoinOutputs: []types.SiacoinOutput{{Address: kit.Actors[who].Addr, Value: e.SiacoinOutput.Value.Sub(fee)}}, MinerFee: fee, ArbitraryData: make([]byte, pad)}
-					copy(txn.ArbitraryData, []byte(fmt.Sprintf("pad-%d", tag)))
-					kit.SignV2(st, &txn)
-					return types.Transaction{}, txn
-				}
-				return kit.V1SpendPadded(st, e, who, who, fee, pad, tag), types.V2Transaction{}
-			}
-			submit := func(t1 []types.Transaction, t2 []types.V2Transaction) error {
-				if v2 {
-					_, err := node.CM.AddV2PoolTransactions(tip.Index(), t2)
-					return err
-				}
-				_, err := node.CM.AddPoolTransactions(t1)
-				return err
-			}
-			for i := 0; i < 18 && cerr == nil; i++ {
-				a := i % 4
-				e, ok := take(a)
-				if !ok {
-					t.Fatalf("INFRA: actor %d has no output left", a)
-				}
-				if i == 0 {
-					first = e
-				}
-				t1, t2 := mk(e, a, types.Siacoins(uint32(2+i)), half-600, i)
-				if err := submit([]types.Transaction{t1}, []types.V2Transaction{t2}); err != nil {
-					cerr = fmt.Errorf("%+v: a valid transaction of half a block weight was rejected with the pool at %d of 20 half-blocks: %v", hc, i, err)
-				}
-				if v2 {
-					ids = append(ids, t2.ID())
-				} else {
-					ids = append(ids, t1.ID())
-				}
-			}
-			if cerr == nil {
-				// the set: two fresh heavy members, then a double spend of the
-				// first pooled transaction's input
-				var s1 []types.Transaction
-				var s2 []types.V2Transaction
-				for k := 0; k < 2; k++ {
-					e, ok := take(k + 1)
-					if !ok {
-						t.Fatalf("INFRA: no output left for the set")
-					}
-					t1, t2 := mk(e, k+1, types.Siacoins(50), int(maxW*6/10), 100+k)
-					s1, s2 = append(s1, t1), append(s2, t2)
-				}
-				t1, t2 := mk(first, 0, types.Siacoins(60), 100, 200)
-				s1, s2 = append(s1, t1), append(s2, t2)
-				if err := submit(s1, s2); err == nil {
-					cerr = fmt.Errorf("%+v: a set whose last member double-spends a pooled input was accepted", hc)
-				}
-			}
-			if cerr == nil {
-				lookup := func(id types.TransactionID) bool {
-					if v2 {
-						_, ok := node.CM.V2PoolTransaction(id)
-						return ok
-					}
-					_, ok := node.CM.PoolTransaction(id)
-					return ok
-				}
-				_ = node.CM.PoolTransactions()
-				_ = node.CM.V2PoolTransactions()
-				gone := 0
-				for _, id := range ids {
-					if !lookup(id) {
-						gone++
-					}
-				}
-				if gone > 0 {
-					cerr = fmt.Errorf("%+v: after a set was REJECTED (its last member conflicts with the pool), %d of the 18 transactions accepted before are no longer in the pool, which holds nine of its ten block weights", hc, gone)
-				}
-			}
-			if cerr == nil {
-				if _, _, perr := checkPoolValid(node, tip.Ledger, 781); perr != nil {
-					cerr = fmt.Errorf("%+v: %w", hc, perr)
-				}
-			}
-			d.Case(hc, cs, cerr)
-		}()
-	}
+	rejectedHeavySetFamily(t, d, maxW)
 	// a pool holding both kinds beyond the ten-block limit: what is evicted must
 	// be what pays least per weight, whichever kind it is and wherever it sits
 	for _, variant := range []int{0, 1} {
@@ -548,4 +407,168 @@ func TestC05Heavy(t *testing.T) {
 			return out
 		})
 	}
+}
+
+// hcase names one enumerated heavy-pool case.
+type hcase struct {
+	Family string `json:"family"`
+	K      int    `json:"k"`
+}
+
+// rejectedHeavySetFamily: shared by C05 (the pool stays what it was) and C14
+// (a rejected set adds nothing and leaves the pool as it was).
+func rejectedHeavySetFamily(t *testing.T, d *kit.Direct, maxW uint64) {
+	// a heavy pool (nine of ten block weights) and a rejected set whose valid
+	// members would have filled it: a rejection changes nothing, so nothing may
+	// be evicted afterwards
+	for _, v2 := range []bool{false, true} {
+		v2 := v2
+		func() {
+			hc := hcase{"rejected-heavy-set-must-not-evict", map[bool]int{false: 1, true: 2}[v2]}
+			rtc := kit.TreeCase{Net: kit.NetSpec{Maturity: 1, Allow: 1, ReqOff: 300, CutOff: 50}}
+			for i := 0; i < 3; i++ {
+				rtc.Blocks = append(rtc.Blocks, kit.BlockSpec{Dt: 1, Miner: i})
+			}
+			tr := kit.BuildTree(rtc)
+			node, err := kit.NewNode(tr, "mem")
+			if err != nil {
+				t.Fatal(err)
+			}
+			defer node.Close()
+			for _, n := range tr.Nodes {
+				if err := node.Submit([]types.Block{n.Block}); err != nil {
+					t.Fatalf("INFRA: %v", err)
+				}
+			}
+			tip := tr.Nodes[len(tr.Nodes)-1]
+			st := tip.Ledger.State
+			cs := &kit.CaseStats{}
+			cs.NonTrivial()
+			cs.Class("heavy:" + hc.Family)
+			var own [4][]types.SiacoinElement
+			for _, e := range tip.Ledger.SCE {
+				if a := kit.ActorOf(e.SiacoinOutput.Address); a >= 0 && e.MaturityHeight <= tip.Height {
+					own[a] = append(own[a], e.Copy())
+				}
+			}
+			for a := range own {
+				for x := range own[a] {
+					for y := x + 1; y < len(own[a]); y++ {
+						if own[a][y].ID.String() < own[a][x].ID.String() {
+							own[a][x], own[a][y] = own[a][y], own[a][x]
+						}
+					}
+				}
+			}
+			next := [4]int{}
+			take := func(a int) (types.SiacoinElement, bool) {
+				if next[a] >= len(own[a]) {
+					return types.SiacoinElement{}, false
+				}
+				next[a]++
+				return own[a][next[a]-1], true
+			}
+			var ids []types.TransactionID
+			var first types.SiacoinElement
+			var cerr error
+			half := int(maxW / 2)
+			mk := func(e types.SiacoinElement, who int, fee types.Currency, pad int, tag int) (types.Transaction, types.V2Transaction) {
+				if v2 {
+					txn := types.V2Transaction{SiacoinInputs: []types.V2SiacoinInput{{Parent: e.Copy()}}, SiacoinOutputs: []types.SiacoinOutput{{Address: kit.Actors[who].Addr, Value: e.SiacoinOutput.Value.Sub(fee)}}, MinerFee: fee, ArbitraryData: make([]byte, pad)}
+					copy(txn.ArbitraryData, []byte(fmt.Sprintf("pad-%d", tag)))
+					kit.SignV2(st, &txn)
+					return types.Transaction{}, txn
+				}
+				return kit.V1SpendPadded(st, e, who, who, fee, pad, tag), types.V2Transaction{}
+			}
+			submit := func(t1 []types.Transaction, t2 []types.V2Transaction) error {
+				if v2 {
+					_, err := node.CM.AddV2PoolTransactions(tip.Index(), t2)
+					return err
+				}
+				_, err := node.CM.AddPoolTransactions(t1)
+				return err
+			}
+			for i := 0; i < 18 && cerr == nil; i++ {
+				a := i % 4
+				e, ok := take(a)
+				if !ok {
+					t.Fatalf("INFRA: actor %d has no output left", a)
+				}
+				if i == 0 {
+					first = e
+				}
+				t1, t2 := mk(e, a, types.Siacoins(uint32(2+i)), half-600, i)
+				if err := submit([]types.Transaction{t1}, []types.V2Transaction{t2}); err != nil {
+					cerr = fmt.Errorf("%+v: a valid transaction of half a block weight was rejected with the pool at %d of 20 half-blocks: %v", hc, i, err)
+				}
+				if v2 {
+					ids = append(ids, t2.ID())
+				} else {
+					ids = append(ids, t1.ID())
+				}
+			}
+			if cerr == nil {
+				// the set: two fresh heavy members, then a double spend of the
+				// first pooled transaction's input
+				var s1 []types.Transaction
+				var s2 []types.V2Transaction
+				for k := 0; k < 2; k++ {
+					e, ok := take(k + 1)
+					if !ok {
+						t.Fatalf("INFRA: no output left for the set")
+					}
+					t1, t2 := mk(e, k+1, types.Siacoins(50), int(maxW*6/10), 100+k)
+					s1, s2 = append(s1, t1), append(s2, t2)
+				}
+				t1, t2 := mk(first, 0, types.Siacoins(60), 100, 200)
+				s1, s2 = append(s1, t1), append(s2, t2)
+				if err := submit(s1, s2); err == nil {
+					cerr = fmt.Errorf("%+v: a set whose last member double-spends a pooled input was accepted", hc)
+				}
+			}
+			if cerr == nil {
+				lookup := func(id types.TransactionID) bool {
+					if v2 {
+						_, ok := node.CM.V2PoolTransaction(id)
+						return ok
+					}
+					_, ok := node.CM.PoolTransaction(id)
+					return ok
+				}
+				_ = node.CM.PoolTransactions()
+				_ = node.CM.V2PoolTransactions()
+				gone := 0
+				for _, id := range ids {
+					if !lookup(id) {
+						gone++
+					}
+				}
+				if gone > 0 {
+					cerr = fmt.Errorf("%+v: after a set was REJECTED (its last member conflicts with the pool), %d of the 18 transactions accepted before are no longer in the pool, which holds nine of its ten block weights", hc, gone)
+				}
+			}
+			if cerr == nil {
+				if _, _, perr := checkPoolValid(node, tip.Ledger, 781); perr != nil {
+					cerr = fmt.Errorf("%+v: %w", hc, perr)
+				}
+			}
+			d.Case(hc, cs, cerr)
+		}()
+	}
+}
+
+// TestC14HeavyReject: "submitting a set either adds all of its not-yet-known
+// transactions or none of them" next to the pool's weight limit: a refused set
+// whose earlier members were heavy must leave every pooled transaction where
+// it was (look-ups by id included).
+func TestC14HeavyReject(t *testing.T) {
+	d := kit.NewDirect(t, "C14", "heavy rejection: a pool of 18 transactions of half a block weight each (nine of the ten block weights the pool keeps), then a set of two fresh members of 0.6 block weights and a last member that double-spends a pooled input (v1 and v2 entry points): the set must be refused as a whole and afterwards every one of the 18 must still be found by id and listed - a rejected set adds nothing, so there is nothing to make room for.")
+	defer d.Done()
+	tc := kit.TreeCase{Net: kit.NetSpec{Maturity: 1, Allow: 1, ReqOff: 0, CutOff: 50}}
+	for i := 0; i < 3; i++ {
+		tc.Blocks = append(tc.Blocks, kit.BlockSpec{Dt: 1, Miner: i})
+	}
+	tr := kit.BuildTree(tc)
+	rejectedHeavySetFamily(t, d, tr.Nodes[len(tr.Nodes)-1].Ledger.State.MaxBlockWeight())
 }
